@@ -58,6 +58,7 @@ func c06Invalidates(c *core.Ctx, pkg *packages.Package) {
 	}
 	c.Analysed(fn.String())
 	g := fn.Graph()
+	// returns that can answer true: `return true`, or `return <boolean expression>` (answers true when the expression does)
 	var yes []an.Loc
 	var yesRet []*ast.ReturnStmt
 	for _, b := range g.Blocks {
@@ -70,25 +71,34 @@ func c06Invalidates(c *core.Ctx, pkg *packages.Package) {
 		c.Undec("R6", "func=Invalidates:shape", fn.Pos(), "no return that can answer true")
 		return
 	}
-	for _, r := range yesRet {
-		if fn.Canon(r.Results[0]) != "true" {
-			c.Undec("R6", "func=Invalidates:shape", r.Pos(), "a return of a computed value ("+fn.Canon(r.Results[0])+") is not handled by the table")
-			return
+	var bad, undec []string
+	rows := 0
+	for _, same := range []string{"T", "F"} {
+		for _, key := range []string{"T", "F"} {
+			for _, ver := range []string{"lt", "eq", "gt"} {
+				rows++
+				bd := &an.Binder{Fn: fn, Bool: map[string]string{"ok(p0)": "same", "ok(p0.(ringBroadcast))": "same"}, Eq: map[string]string{"recv.key|p0.key": "key", "p0.key|recv.key": "key"},
+					Cmp: map[string]string{"recv.version|p0.version": "ver"}, Row: an.Row{"same": same, "key": key, "ver": ver}}
+				ex := g.Exec(g.EntryLoc(), yes, bd.Leaf, an.ExecOpts{Unroll: 1})
+				mayTrue := false
+				for i, r := range yesRet {
+					if !ex.May[i] {
+						continue
+					}
+					if fn.Canon(r.Results[0]) == "true" {
+						mayTrue = true
+					} else if an.EvalCond(fn.Info(), r.Results[0], an.Store{}, bd.Leaf) != an.F {
+						mayTrue = true
+					}
+				}
+				if mayTrue && (same == "F" || key == "F" || ver == "lt") {
+					bad = append(bad, fmt.Sprintf("{same=%s,key=%s,ver=%s} can answer true", same, key, ver))
+				}
+			}
 		}
 	}
-	t := an.Table{G: g, From: g.EntryLoc(), MayOnly: true, Opts: an.ExecOpts{Unroll: 1},
-		Atoms: []an.Atom{{Name: "same", Values: []string{"T", "F"}}, {Name: "key", Values: []string{"T", "F"}}, {Name: "ver", Values: []string{"lt", "eq", "gt"}}},
-		Binder: &an.Binder{Fn: fn, Bool: map[string]string{"ok(p0)": "same", "ok(p0.(ringBroadcast))": "same"}, Eq: map[string]string{"recv.key|p0.key": "key", "p0.key|recv.key": "key"},
-			Cmp: map[string]string{"recv.version|p0.version": "ver"}},
-		Targets: yes,
-		Want: func(r an.Row, _ int) an.Tri {
-			if r["same"] == "F" || r["key"] == "F" || r["ver"] == "lt" {
-				return an.F
-			}
-			return an.U
-		}}
-	res := t.Run()
-	c.Check(res.OK(), "R6", "func=Invalidates:table", fn.Pos(), "answers true only for a ringBroadcast of the same key whose version is not older: "+res.Summary(), res.Rows)
+	_ = undec
+	c.Check(len(bad) == 0, "R6", "func=Invalidates:table", fn.Pos(), fmt.Sprintf("answers true only for a ringBroadcast of the same key whose version is not older: %d rows; mismatches: %v", rows, bad), rows)
 	// content rule: a loop over the old content, containing a 'false' answer, dominates every 'true'
 	okLoop := false
 	for _, rs := range rangeLoops(fn, "p0.content") {
